@@ -82,6 +82,10 @@ package frontend
 //@ contract iface API.Println
 //@   pure
 
+//@ contract iface API.NewHint
+//@   pure
+//@   ensures result.1 == nil ==> len(result.0) == nbOutputs && fresh(result.0)
+//@   ensures result.1 == nil ==> forall k int :: 0 <= k && k < nbOutputs ==> isWire(result.0[k])
 //@ contract iface Compiler.FieldBitLen
 //@   pure
 //@   ensures result == fieldBits()
